@@ -178,22 +178,25 @@ func depthCluster(d int) []*rj.Value {
 
 type sizeDims struct {
 	strings, widths, arrays, depths []int
+	products                        []int // powers of two whose neighbourhoods are also explored in wrapped positions
 }
 
 func sizeDimsFor(tier string) sizeDims {
 	if tier == "thorough" {
 		return sizeDims{
-			strings: sweepSizes(300, 512, 1024, 2048, 4096, 8192, 65536, 1<<20),
-			widths:  sweepSizes(140, 256, 512, 1024, 4096),
-			arrays:  sweepSizes(140, 256, 512, 1024, 4096),
-			depths:  append(sweepSizes(140, 256, 512, 1000, 2048, 5000), 9990),
+			strings:  sweepSizes(300, 512, 1024, 2048, 4096, 8192, 65536, 1<<20),
+			widths:   sweepSizes(140, 256, 512, 1024, 4096),
+			arrays:   sweepSizes(140, 256, 512, 1024, 4096),
+			depths:   append(sweepSizes(140, 256, 512, 1000, 2048, 5000), 9990),
+			products: []int{16, 32, 64, 128, 256, 1024, 4096},
 		}
 	}
 	return sizeDims{
-		strings: sweepSizes(130, 256, 512, 1024, 4096, 65536),
-		widths:  sweepSizes(70, 128, 256, 1024),
-		arrays:  sweepSizes(70, 128, 256, 1024),
-		depths:  append(sweepSizes(70, 100, 128), 1000, 1001, 1002),
+		strings:  sweepSizes(130, 256, 512, 1024, 4096, 65536),
+		widths:   sweepSizes(70, 128, 256, 1024),
+		arrays:   sweepSizes(70, 128, 256, 1024),
+		depths:   append(sweepSizes(70, 100, 128), 1000, 1001, 1002),
+		products: []int{64, 256},
 	}
 }
 
@@ -223,6 +226,51 @@ func sizeClusters(tier string, noNull bool) (labels []string, clusters [][]*rj.V
 	}
 	for _, n := range d.depths {
 		add(fmt.Sprintf("depth%d", n), depthCluster(n))
+	}
+	// PRODUCTS of a size and a position: the clusters next to the powers of two once more, every value
+	// wrapped (a) as element 17 of an 18-element array member, (b) nine levels down, (c) as the 39th member of
+	// a 40-member object - a fast path keyed on the size AND on where the sized part sits
+	near := func(n int) bool {
+		for _, p := range d.products {
+			if n >= p-1 && n <= p+1 {
+				return true
+			}
+		}
+		return false
+	}
+	wrap := func(l string, c []*rj.Value) {
+		var inArr, deep, wide []*rj.Value
+		for _, v := range c {
+			a := intArray(17)
+			a.A = append(a.A, v)
+			inArr = append(inArr, rj.NewObj(rj.Member{Name: "w", V: a}, rj.Member{Name: "k", V: num(1)}))
+			dv := v
+			for i := 0; i < 9; i++ {
+				dv = rj.NewObj(rj.Member{Name: "d", V: dv}, rj.Member{Name: "s", V: num(i)})
+			}
+			deep = append(deep, dv)
+			w := widthObj(40)
+			w.O[38].V = v
+			wide = append(wide, w)
+		}
+		add(l+"@index17", inArr)
+		add(l+"@depth9", deep)
+		add(l+"@member39", wide)
+	}
+	for _, n := range d.strings {
+		if near(n) {
+			wrap(fmt.Sprintf("string%d", n), stringCluster(n))
+		}
+	}
+	for _, n := range d.widths {
+		if near(n) {
+			wrap(fmt.Sprintf("width%d", n), widthCluster(n))
+		}
+	}
+	for _, n := range d.arrays {
+		if near(n) {
+			wrap(fmt.Sprintf("array%d", n), arrayCluster(n))
+		}
 	}
 	return
 }
@@ -267,7 +315,7 @@ func runSizeSweep(ctx *core.Ctx, id string, legacy bool, tier string, what sizeW
 					near = true
 				}
 			}
-			if !near || strings.HasPrefix(l, "array") {
+			if !near || strings.HasPrefix(l, "array") || (strings.Contains(l, "@") && tier != "thorough") {
 				continue
 			}
 			objs := onlyObjs(c)
@@ -286,10 +334,13 @@ func runSizeSweep(ctx *core.Ctx, id string, legacy bool, tier string, what sizeW
 // runSizeSweepPanics: every ordered pair inside every size cluster through MergePatch, MergeMergePatches,
 // CreateMergePatch and Equal - judged only for "returns, does not panic" (C04).
 func runSizeSweepPanics(ctx *core.Ctx, id string, legacy bool, tier string) {
-	_, clusters := sizeClusters(tier, false)
+	labels, clusters := sizeClusters(tier, false)
 	type pair struct{ a, b string }
 	var pairs []pair
-	for _, c := range clusters {
+	for i, c := range clusters {
+		if strings.Contains(labels[i], "@") && tier != "thorough" {
+			continue // the wrapped positions are judged by C02/C03/C06/C19 (which also report panics)
+		}
 		for _, a := range c {
 			at := txt(a)
 			for _, b := range c {
